@@ -307,3 +307,30 @@ func SumTo(n int8, from int8) int {
 	}
 	return t
 }
+
+// the translator's normalisations (design/XLATE.md section 8): negated and flipped comparisons, constants on the left,
+// inverted ifs, chains of pure conditions (emitted in a canonical order), loop headers written with > and += 1
+func NormCmp(a, b int8) (bool, bool, bool, bool, int) {
+	r := 0
+	if !(a < b) {
+		r += 1
+	} else {
+		r += 2
+	}
+	if 3 == a {
+		r += 4
+	}
+	if !(a != b) {
+		r += 8
+	}
+	for i := int8(0); b > i; i += 1 {
+		r += 16
+	}
+	return !(a <= b), !(a == b), b > a && a > -5 && 7 != b, !!(a >= b), r
+}
+
+// a chain with an operand that can panic keeps its order and its laziness
+func GuardOrder(s []byte, i int8) (bool, bool) {
+	return int(i) < len(s) && i >= 0 && s[i] == 7, i >= 0 && int(i) < len(s) && s[i] == 7
+}
+func GuardPanic(s []byte, i int8) bool { return s[i] == 7 && int(i) < len(s) }
